@@ -478,8 +478,41 @@ func vC11Mems(r *vRand, gen func(*vRand) vC11Mem, max int) []vC11Mem {
 }
 
 // sizes straddling 180 members / 4096 bytes per member / 8192 bytes in total
+// vC11EscFill builds a value whose percent-escaped length is exactly n (n >= 0) out of multi-byte runes, bytes that
+// need escaping and plain letters, in random proportion (the constructor's size checks must count escaped BYTES).
+func vC11EscFill(r *vRand, n int) string {
+	var sb strings.Builder
+	pieces := []struct {
+		s string
+		e int
+	}{{"\u00e9", 6}, {"\u20ac", 9}, {"\U0001F600", 12}, {" ", 3}, {"%", 3}, {"\u4e2d", 9}, {"a", 1}, {"b", 1}}
+	for n > 0 {
+		p := pieces[r.Intn(len(pieces))]
+		if p.e > n {
+			p = pieces[6]
+		}
+		sb.WriteString(p.s)
+		n -= p.e
+	}
+	return sb.String()
+}
+
 func vC11BigMems(r *vRand) (string, []vC11Mem) {
-	switch r.Intn(4) {
+	switch r.Intn(6) {
+	case 4: // total 8186..8198 escaped bytes, three members of non-ASCII / escape-needing values, each below 4096
+		t := 8186 + r.Intn(13)
+		return "total8192esc", []vC11Mem{
+			{ctor: "raw", key: "a", val: vC11EscFill(r, 2998)},
+			{ctor: "raw", key: "b", val: vC11EscFill(r, 2998)},
+			{ctor: "raw", key: "c", val: vC11EscFill(r, t-6008)},
+		}
+	case 5: // the same with part of the bytes in property values
+		t := 8186 + r.Intn(13)
+		return "total8192escp", []vC11Mem{
+			{ctor: "raw", key: "a", val: vC11EscFill(r, 1500), props: []vC11Prop{{kind: 'r', key: "p", val: vC11EscFill(r, 1494)}}},
+			{ctor: "raw", key: "b", val: vC11EscFill(r, 2998)},
+			{ctor: "raw", key: "c", val: vC11EscFill(r, t-6008)},
+		}
 	case 0: // member count 178..183, sometimes with duplicates on top
 		n := 178 + r.Intn(6)
 		var ms []vC11Mem
